@@ -78,7 +78,7 @@ Print Assumptions C14_orientation_direction.
 Theorem C14_transform_total : forall table fwd bwd ds hub r a b c x,
   build ds = Some r -> a <> b -> get_chain hub r a b = Some c ->
   exists y, tfs_transform table fwd bwd hub r a b x = TOk table y.
-Proof. intros table fwd bwd ds hub r a b c x B. apply tfs_total_inv. exact (build_inv ds r B). Qed.
+Proof. exact tfs_total_l. Qed.
 Print Assumptions C14_transform_total.
 
 (* by induction on the chain: a typed chain followed by the reversed chain is the identity, GIVEN bijective hops *)
@@ -94,7 +94,7 @@ Theorem C14_roundtrip_under_bijection : forall table fwd bwd valid ds hub r a b 
   build ds = Some r -> bijective_registry table fwd bwd valid r -> a <> b -> valid a x ->
   tfs_transform table fwd bwd hub r a b x = TOk table y ->
   valid b y /\ tfs_transform table fwd bwd hub r b a y = TOk table x.
-Proof. intros table fwd bwd valid ds hub r a b x y B. apply roundtrip_inv. exact (build_inv ds r B). Qed.
+Proof. exact roundtrip_under_bijection_l. Qed.
 Print Assumptions C14_roundtrip_under_bijection.
 
 (* the map.get((from,to)) + transform idiom of upload_table / convert_flyserver_data_back / cfw.transform *)
@@ -102,7 +102,7 @@ Theorem C14_direct_roundtrip : forall table fwd bwd valid ds r a b x y,
   build ds = Some r -> bijective_registry table fwd bwd valid r -> a <> b -> valid a x ->
   direct_transform table fwd bwd r a b x = Some (Some y) ->
   valid b y /\ direct_transform table fwd bwd r b a y = Some (Some x).
-Proof. intros table fwd bwd valid ds r a b x y B. apply direct_roundtrip_inv. exact (build_inv ds r B). Qed.
+Proof. exact direct_roundtrip_l. Qed.
 Print Assumptions C14_direct_roundtrip.
 
 (* ---------- T1: the registry of the working tree (regenerated on this run) ---------- *)
@@ -133,7 +133,7 @@ Theorem C14_installed_roundtrip : forall table fwd bwd valid a b x y,
   bijective_registry table fwd bwd valid gen_registry -> a <> b -> valid a x ->
   tfs_transform table fwd bwd gen_hub gen_registry a b x = TOk table y ->
   valid b y /\ tfs_transform table fwd bwd gen_hub gen_registry b a y = TOk table x.
-Proof. intros table fwd bwd valid a b x y. apply roundtrip_inv. exact gen_registry_inv. Qed.
+Proof. exact installed_roundtrip_l. Qed.
 Print Assumptions C14_installed_roundtrip.
 
 (* ---------- non-vacuity ---------- *)
